@@ -12,7 +12,7 @@ from ..values import (Const, Sym, CRef, FRef, MRef, Bound, Obj, Tup, App, Coll,
                       New, Raise, walk)
 from ..interp import Interp, Hooks, is_private_helper, prologue_helpers
 from ..formulas import (LANGS, signatures, FormulaHooks, new_instance)
-from ..report import Finding, RuleResult, floor, Attempts
+from ..report import Finding, RuleResult, floor, Attempts, adopt
 
 PROP = 'C08'
 
@@ -609,4 +609,12 @@ def run(prog, tier, seed):
     assumptions = ['no reflection / monkey patching of the class lattice',
                    'documented syntax transcribed by hand into DOC_SYNTAX',
                    'arity is not part of the armed rule (observation only)']
+    # LTL.modelcheck rejects what is not LTL inside the body of A only in
+    # the closure of its tableau: TypeError discipline of that function
+    from . import c02
+
+    def _closure_discipline(prog):
+        return c02.rule_ltl2(prog, c02.discover(prog))
+    results = results + adopt(T.results(T(_closure_discipline, prog)), PROP,
+                              'TypeError discipline of the LTL closure')
     return results, expl, assumptions, T.extra()
